@@ -41,6 +41,7 @@ namespace dispenso {
 template <typename F>
 DISPENSO_INLINE void parallel_invoke(ConcurrentTaskSet& /*tasks*/, F&& f) {
   // Single-functor base case: run inline.
+  DISPENSO_VERIF_POINT("PiRunLast", nullptr);
   std::forward<F>(f)();
 }
 
@@ -49,6 +50,7 @@ DISPENSO_INLINE void parallel_invoke(ConcurrentTaskSet& tasks, F1&& f1, F2&& f2,
   // skipRecheck=true: the per-call inline gate's TaskSet check is enough; the
   // pool-level recheck is redundant when the caller is in a fork-join
   // pattern.
+  DISPENSO_VERIF_POINT("PiSchedule", &tasks);
   tasks.schedule(std::forward<F1>(f1), /*skipRecheck=*/true);
   parallel_invoke(tasks, std::forward<F2>(f2), std::forward<Fs>(fs)...);
 }
